@@ -46,13 +46,31 @@ func runC10(cx *Ctx, r *Report) {
 	r.Assumptions = []string{"the EVM keeper executes the call it is given; the bound ERC20 contract implements mint/burn as named", "bank keeper semantics", "a failing message is reverted as a whole by the SDK (so an error after the first side undoes it)"}
 	entries := cx.entriesOfModule("token", "msg", "hook")
 	per := map[string][]c10ev{}
+	var symLookups []c10ev
 	over := cx.forEachEvent(entries, watchEVM, func(e *Entry, w *Walker, ev *Event) {
 		if strings.HasPrefix(ev.Kind, "bank.") || strings.HasPrefix(ev.Kind, "evm:") {
 			per[e.Name] = append(per[e.Name], c10ev{ev, w})
 		}
+		// the coin's denom is a MIN UNIT: looked up in the symbol index it names another
+		// token (symbols and min units are separate namespaces and may collide)
+		if (ev.Kind == "store.get" || ev.Kind == "store.has") && hasPrefix(ev, "token:PrefixTokenForSymbol=0x01") && (e.Name == "SwapToERC20" || e.Name == "SwapFromERC20" || e.Name == "SwapFeeToken") {
+			k := ev.Args[0].LooseString()
+			for _, d := range []string{"msg.Amount.Denom", "msg.WantedAmount.Denom", "msg.FeePaid.Denom"} {
+				if strings.HasSuffix(k, "("+d+")") {
+					symLookups = append(symLookups, c10ev{ev, w})
+				}
+			}
+		}
 	})
 	for _, o := range over {
 		r.toolErr("frame budget exceeded for %s", o)
+	}
+	{
+		pos, where := "", ""
+		if len(symLookups) > 0 {
+			pos, where = symLookups[0].ev.Pos(cx), symLookups[0].ev.Fr.String()
+		}
+		r.check(len(symLookups) == 0, "denom-namespace", "conversions", pos, "no conversion handler looks the coin's denom up in the symbol index (the token is resolved through the min-unit index only)", "a conversion handler reads the symbol index with the coin's denom as the key on chain "+where+": another token whose SYMBOL equals this min unit is resolved instead, and its contract is minted / burned while the native coin of the denom moves")
 	}
 	get := func(name, kind string) []c10ev {
 		var out []c10ev
@@ -393,7 +411,9 @@ func (cx *Ctx) lossLessFormula(r *Report) {
 // the lookup goes through): the contract / unit of exactly the coin's denom.
 func recordFieldKeyedBy(ts []*Term, field, key string) bool {
 	for _, t := range ts {
-		f := findSub(t, func(x *Term) bool { return x.Op == "field" && x.Name == field && len(x.Args) == 1 && x.Args[0].Op != "param" })
+		f := findSub(t, func(x *Term) bool {
+			return x.Op == "field" && x.Name == field && len(x.Args) == 1 && x.Args[0].Op != "param"
+		})
 		if f == nil {
 			continue
 		}
